@@ -152,6 +152,86 @@ def utcOffset (cs : List Char) : Option Int :=
     else none
   | [] => none
 
+/-- A time zone named by a string: a whole-minute UTC offset, or an IANA name (kept as written). -/
+inductive TzOut where
+  | off (minutes : Int)
+  | name (s : List Char)
+  deriving Repr, DecidableEq
+
+/-- TimeZoneIdentifier: `UTCOffset[~SubMinutePrecision]` (ASCII sign) or TimeZoneIANAName. -/
+def timeZoneIdentifier (cs : List Char) : Option TzOut :=
+  match utcOffset cs with
+  | some m => some (.off m)
+  | none =>
+    match cs with
+    | c :: _ => if c = '+' ∨ c = '-' then none else if ianaName cs then some (.name cs) else none
+    | [] => none
+
+/-- The zone an ISO string carries (ParseTemporalTimeZoneString, steps after the identifier attempt): the bracketed
+    annotation if there is one; else `Z` = UTC; else the numeric offset, which must be of minute precision — a time
+    zone offset has no seconds, and dropping them would change the value; else nothing. -/
+def zoneOfParts (off : Option POffset) (tz : Option (Bool × TzId)) : Option TzOut :=
+  match tz with
+  | some (_, .name n) => some (.name n)
+  | some (_, .off ns) => some (.off (ns / 60000000000))
+  | none =>
+    match off with
+    | some .z => some (.name "UTC".toList)
+    | some (.num ns) => if ns % 60000000000 = 0 then some (.off (ns / 60000000000)) else none
+    | none => none
+
+/-- `TimeZone::try_from_str`: a time zone identifier, or any Temporal ISO string that carries a zone — the goals are
+    date-time, time, year-month, month-day; a string that, without the time designator, also reads as a month-day or a
+    year-month is not a time string (the same early error as for `PlainTime`); a year-month or month-day must exist. -/
+def timeZone (cs : List Char) : Option TzOut :=
+  match timeZoneIdentifier cs with
+  | some z => some z
+  | none =>
+    match dateTime cs with
+    | some r => zoneOfParts r.offset r.tz
+    | none =>
+      let timeGoal : Option (Option TzOut) := do
+        let (hasT, body) := match cs with
+          | 'T' :: r => (true, r) | 't' :: r => (true, r) | r => (false, r)
+        let (_, rest) ← time body
+        let (off, rest) : Option POffset × List Char := match offsetOrZ rest with
+          | some (o, r') => (some o, r')
+          | none => (none, rest)
+        let tl ← tail rest
+        let _ ← calendarOf tl.anns
+        let timeText := body.take (body.length - rest.length)
+        let ambiguous := !hasT && ((match monthDaySyntactic timeText with | some (_, []) => true | _ => false) ||
+                                   (match yearMonthShort timeText with | some (_, []) => true | _ => false))
+        if ambiguous then none else some (zoneOfParts off tl.tz)
+      -- year-month / month-day strings carry no offset
+      let ym : Option (Option TzOut) := do
+        let (_, rest) ← yearMonthShort cs
+        let tl ← tail rest
+        let _ ← calendarOf tl.anns
+        some (zoneOfParts none tl.tz)
+      let md : Option (Option TzOut) := do
+        let (_, rest) ← monthDayShort cs
+        let tl ← tail rest
+        let _ ← calendarOf tl.anns
+        some (zoneOfParts none tl.tz)
+      match timeGoal with
+      | some z => z
+      | none =>
+        match ym with
+        | some z => z
+        | none =>
+          match md with
+          | some z => z
+          | none => none
+
+def hexDigit (n : Nat) : Char := if n < 10 then Char.ofNat (48 + n) else Char.ofNat (87 + n)
+
+/-- offset zones by their identifier, names as the hexadecimal UTF-8 bytes (they may hold any character) -/
+def TzOut.render : TzOut → String
+  | .off m => "offset " ++ String.ofList (Fmt.offsetMinutes m)
+  | .name n => "name " ++ String.ofList ((String.ofList n).toUTF8.toList.flatMap
+      (fun b => [hexDigit (b.toNat / 16), hexDigit (b.toNat % 16)]))
+
 /-- `MonthCode::from_str`: `M` and two digits, optionally followed by `L`; `M00` exists only as `M00L`. -/
 def monthCode (cs : List Char) : Option (Nat × Bool) :=
   match cs with
